@@ -156,3 +156,22 @@ def run(prop, tier, seed, replay):
 
 
 REGISTRY = {p: run for p in PROPS}
+
+
+def run_replay_only(prop, payload, work, out, t0, tier, seed):
+    """re-execute one replay-core violation (used by C03)"""
+    cases_path = os.path.join(work, "cases.ndjson")
+    with open(cases_path, "w") as f:
+        f.write(json.dumps(payload["case"]) + "\n")
+    res_path = os.path.join(work, "result.json")
+    r = P.sh([P.DGV, "replay-core", "--cases", cases_path, "--result", res_path, "--threads", "1"], timeout=600)
+    if r.returncode != 0:
+        raise P.ToolError("dgv replay-core failed")
+    res = json.load(open(res_path))
+    for m in res["mismatches"]:
+        if prop in m.get("prop", []) or m["what"] == "graph":
+            out.violation(f"{m['what']} {m.get('path', '')}", dict(property=prop, source="replay-core", mismatch=m, case=payload["case"]))
+    code = out.finish()
+    P.write_evidence(prop, tier, seed, "model_checking", dict(states=1, transitions=1, traces_validated_against_impl=1,
+                     samples=[{"world": payload["case"]["w"]}], explanation="replay of one recorded case"), time.time() - t0, len(out.violations))
+    return code
